@@ -1444,6 +1444,272 @@ theorem case_sepB (hs₁ : s₁.Ok H L) (hs₂ : s₂.Ok H L) {n a b : Nat} (hP 
   | bad => simp [Res.bind, seqRes, finish]
   | fuel => exact absurd hr hne
 
+theorem parse_choice {g : Graph} {L : Lex} {n a c p} {nd : Node} (hnd : g.get a = some nd)
+    (hk : nd.kind = .choice) (hs : supported nd = true) :
+    parse g L (n+1) a c p = finish nd (choiceLoop (fun e q => parse g L n e c q) nd.kids p p) := by
+  rw [parse]
+  simp only [hnd, hs, Bool.not_true, Bool.false_eq_true, if_false, hk]
+
+theorem case_term (hs₁ : s₁.Ok H L) (hs₂ : s₂.Ok H L) (hb : Base s₁ s₂ d R) {n a b : Nat}
+    (hP : P s₁ s₂ L R n) {na nb : Node} (ha : s₁.g.get a = some na) (hgb : s₂.g.get b = some nb)
+    (hsa : supported na = true) (hsb : supported nb = true) (hsup : na.suppress = nb.suppress)
+    (hka : na.kind = .str ∨ na.kind = .re ∨ na.kind = .eof) (hkk : na.kind = nb.kind)
+    (htok : na.kind = .eof ∨ na.tok = nb.tok) : Goal s₁ s₂ L n a b := by
+  intro c p hne
+  have hpa := parse_match (L := L) (n := n) (c := c) (p := p) ha hsa hka
+  have hskne : skipGen s₁.g L (fun e q => parse s₁.g L n e true q) n c p ≠ .fuel := by
+    intro h; rw [hpa, h] at hne; exact hne rfl
+  obtain ⟨m₀, hm₀⟩ := skip_tr hs₁ hs₂ hb hP (Nat.le_refl n) c p hskne
+  apply shift_ev (m₀ := m₀)
+  intro m hm
+  rw [parse_match hgb hsb (by rw [← hkk]; exact hka), hm₀ m hm, hpa]
+  cases hsk : skipGen s₁.g L (fun e q => parse s₁.g L n e true q) n c p with
+  | ok w p' =>
+    simp only
+    have hlex : lexTok nb L p' = lexTok na L p' := by
+      simp only [lexTok, ← hkk]
+      rcases htok with h | h
+      · simp [h]
+      · rw [h]
+    rw [hlex]
+    rw [hsk] at hpa
+    exact finish_congr hsup (left_net hs₁ hpa)
+  | fail => rfl
+  | bad => rfl
+  | fuel => rfl
+
+theorem case_choice (hs₁ : s₁.Ok H L) {n a b : Nat} {na nb : Node}
+    (ha : s₁.g.get a = some na) (hgb : s₂.g.get b = some nb)
+    (hsa : supported na = true) (hsb : supported nb = true) (hsup : na.suppress = nb.suppress)
+    (hka : na.kind = .choice) (hkb : nb.kind = .choice)
+    (hkids : TrList s₁ s₂ L n na.kids nb.kids) : Goal s₁ s₂ L n a b := by
+  intro c p hne
+  have hpa := parse_choice (L := L) (n := n) (c := c) (p := p) ha hka hsa
+  have hlne : choiceLoop (fun e q => parse s₁.g L n e c q) na.kids p p ≠ .fuel := by
+    intro h; rw [hpa, h] at hne; simp [finish] at hne
+  obtain ⟨m₀, hm₀⟩ := choiceLoop_tr (Nat.le_refl n) c hkids p p hlne
+  apply shift_ev (m₀ := m₀)
+  intro m hm
+  rw [parse_choice hgb hkb hsb, hm₀ m hm, hpa]
+  exact finish_congr hsup (left_net hs₁ hpa)
+
+theorem parse_opt {g : Graph} {L : Lex} {n a c p} {nd : Node} (hnd : g.get a = some nd)
+    (hk : nd.kind = .opt) (hs : supported nd = true) :
+    parse g L (n+1) a c p =
+      match nd.kids with
+      | [k] => finish nd (match parse g L n k c p with
+          | .ok v p' => .ok v.wrap1 p'
+          | .fail => .ok .N p
+          | r => r)
+      | _ => .bad := by
+  rw [parse]
+  simp only [hnd, hs, Bool.not_true, Bool.false_eq_true, if_false, hk]
+  rfl
+
+theorem case_opt (hs₁ : s₁.Ok H L) {n a b : Nat} {na nb : Node}
+    (ha : s₁.g.get a = some na) (hgb : s₂.g.get b = some nb)
+    (hsa : supported na = true) (hsb : supported nb = true) (hsup : na.suppress = nb.suppress)
+    (hka : na.kind = .opt) (hkb : nb.kind = .opt)
+    (hkids : TrList s₁ s₂ L n na.kids nb.kids) : Goal s₁ s₂ L n a b := by
+  intro c p hne
+  have hpa := parse_opt (L := L) (n := n) (c := c) (p := p) ha hka hsa
+  have hpb : ∀ m, parse s₂.g L (m+1) b c p = _ := fun m => parse_opt (L := L) (n := m) (c := c) (p := p) hgb hkb hsb
+  generalize h1 : na.kids = ka at hkids
+  generalize h2 : nb.kids = kb at hkids
+  cases hkids with
+  | nil =>
+    exact ⟨1, fun m hm => by
+      obtain ⟨m', rfl⟩ : ∃ m', m = m' + 1 := ⟨m - 1, by omega⟩
+      rw [hpb, hpa, h1, h2]⟩
+  | @cons x y xs ys tr rest =>
+    cases rest with
+    | nil =>
+      rw [h1] at hpa
+      simp only at hpa
+      have hxne : parse s₁.g L n x c p ≠ .fuel := by
+        intro h; rw [hpa, h] at hne; simp [finish] at hne
+      obtain ⟨m₀, hm₀⟩ := tr n (Nat.le_refl n) c p hxne
+      apply shift_ev (m₀ := m₀)
+      intro m hm
+      rw [hpb, h2]
+      simp only
+      rw [hm₀ m hm, hpa]
+      exact finish_congr hsup (left_net hs₁ hpa)
+    | cons _ _ =>
+      exact ⟨1, fun m hm => by
+        obtain ⟨m', rfl⟩ : ∃ m', m = m' + 1 := ⟨m - 1, by omega⟩
+        rw [hpb, hpa, h1, h2]⟩
+
+theorem case_rep (hs₁ : s₁.Ok H L) {n a b : Nat} {na nb : Node}
+    (ha : s₁.g.get a = some na) (hgb : s₂.g.get b = some nb)
+    (hsa : supported na = true) (hsb : supported nb = true) (hsup : na.suppress = nb.suppress)
+    (hka : na.kind = .star ∨ na.kind = .plus) (hkb : nb.kind = na.kind)
+    (hkids : TrList s₁ s₂ L n na.kids nb.kids) (hsep : TrSep s₁ s₂ L n na.sep nb.sep) :
+    Goal s₁ s₂ L n a b := by
+  intro c p hne
+  generalize h1 : na.kids = ka at hkids
+  generalize h2 : nb.kids = kb at hkids
+  cases hkids with
+  | nil =>
+    refine ⟨1, fun m hm => ?_⟩
+    obtain ⟨m', rfl⟩ : ∃ m', m = m' + 1 := ⟨m - 1, by omega⟩
+    rw [parse, parse]
+    rcases hka with hk | hk <;>
+      simp only [ha, hgb, hsa, hsb, Bool.not_true, Bool.false_eq_true, if_false, hk, hkb, h1, h2]
+  | @cons x y xs ys tr rest =>
+    cases rest with
+    | cons _ _ =>
+      refine ⟨1, fun m hm => ?_⟩
+      obtain ⟨m', rfl⟩ : ∃ m', m = m' + 1 := ⟨m - 1, by omega⟩
+      rw [parse, parse]
+      rcases hka with hk | hk <;>
+        simp only [ha, hgb, hsa, hsb, Bool.not_true, Bool.false_eq_true, if_false, hk, hkb, h1, h2]
+    | nil =>
+      rcases hka with hk | hk
+      · have hpa := parse_star (L := L) (n := n) (c := c) (p := p) ha hk hsa h1
+        have hlne : repLoop (fun q => parse s₁.g L n x c q) (na.sep.map fun s q => parse s₁.g L n s c q)
+            n p .E false false ≠ .fuel := by
+          intro h; rw [hpa, h] at hne; simp [finish] at hne
+        obtain ⟨m₀, hm₀⟩ := repLoop_tr (Nat.le_refl n) c tr hsep n p .E false false hlne
+        apply shift_ev (m₀ := max m₀ n)
+        intro m hm
+        rw [parse_star hgb (by rw [hkb, hk]) hsb h2, hm₀ m (by omega) m (by omega), hpa]
+        exact finish_congr hsup (left_net hs₁ hpa)
+      · have hpa := parse_plus (L := L) (n := n) (c := c) (p := p) ha hk hsa h1
+        have hlne : repLoop (fun q => parse s₁.g L n x c q) (na.sep.map fun s q => parse s₁.g L n s c q)
+            n p .E true false ≠ .fuel := by
+          intro h; rw [hpa, h] at hne; simp [finish] at hne
+        obtain ⟨m₀, hm₀⟩ := repLoop_tr (Nat.le_refl n) c tr hsep n p .E true false hlne
+        apply shift_ev (m₀ := max m₀ n)
+        intro m hm
+        rw [parse_plus hgb (by rw [hkb, hk]) hsb h2, hm₀ m (by omega) m (by omega), hpa]
+        exact finish_congr hsup (left_net hs₁ hpa)
+
+theorem commentsLoop_cases (f : Nat → Res) (skip : Nat → Nat) :
+    ∀ j p, (∃ w q, commentsLoop f skip j p = .ok w q) ∨ commentsLoop f skip j p = .fuel ∨
+      commentsLoop f skip j p = .bad := by
+  intro j
+  induction j with
+  | zero => intro p; exact Or.inr (Or.inl rfl)
+  | succ j ih =>
+    intro p
+    simp only [commentsLoop]
+    cases f p with
+    | ok v q => exact ih (skip q)
+    | fail => exact Or.inl ⟨_, _, rfl⟩
+    | fuel => exact Or.inr (Or.inl rfl)
+    | bad => exact Or.inr (Or.inr rfl)
+
+theorem skip_cases (g : Graph) (L : Lex) (f : Nat → Nat → Res) (n : Nat) (c : Bool) (p : Nat) :
+    (∃ w q, skipGen g L f n c p = .ok w q) ∨ skipGen g L f n c p = .fuel ∨ skipGen g L f n c p = .bad := by
+  unfold skipGen
+  by_cases hc : c = true
+  · simp only [hc, if_true]; exact Or.inl ⟨_, _, rfl⟩
+  · simp only [hc]
+    cases g.comments with
+    | none => exact Or.inl ⟨_, _, rfl⟩
+    | some cm => exact commentsLoop_cases _ _ _ _
+
+theorem reToks_cons {s : Side} {H : Hyps} {d : Nat} {ks : List Nat} {t : Nat} {ts : List Nat}
+    (h : reToks s H d ks = some (t :: ts)) :
+    ∃ k ks', ks = k :: ks' ∧ reTok s H d k = some t ∧ reToks s H d ks' = some ts := by
+  cases ks with
+  | nil => simp [reToks] at h
+  | cons k ks' =>
+    simp only [reToks] at h
+    cases hk : reTok s H d k with
+    | none => simp [hk] at h
+    | some t' =>
+      cases hks : reToks s H d ks' with
+      | none => simp [hk, hks] at h
+      | some ts' =>
+        simp only [hk, hks, Option.some.injEq, List.cons.injEq] at h
+        exact ⟨k, ks', rfl, by rw [← h.1]; exact hk, by rw [← h.2]; exact hks⟩
+
+theorem alt_res {H : Hyps} {L : Lex} (hL : LexOk H L) {t : Nat} {ts : List Nat}
+    (h : H.alts.contains (t, ts) = true) (p' : Nat) : tokRes L t p' = firstRes L ts p' := by
+  have := hL.2 (t, ts) (by simpa using h) p'
+  simp only [tokRes, firstRes, this]
+
+theorem finish_tok {nd : Node} (hsup : nd.suppress = false) {L : Lex} (ts : List Nat) (p' : Nat) :
+    finish nd (firstRes L ts p') = firstRes L ts p' := by
+  simp only [firstRes]
+  cases firstTok L p' ts with
+  | none => rfl
+  | some len => simp [finish, hsup]
+
+theorem case_choice_re (hs₁ : s₁.Ok H L) (hs₂ : s₂.Ok H L) (hb : Base s₁ s₂ d R) {n a b : Nat}
+    (hP : P s₁ s₂ L R n) {na nb : Node} (ha : s₁.g.get a = some na) (hgb : s₂.g.get b = some nb)
+    (hsa : supported na = true) (hsb : supported nb = true) (hsupa : na.suppress = false)
+    (hsupb : nb.suppress = false) (hka : na.kind = .choice) (hkb : nb.kind = .re)
+    (hne' : nb.tok ∈ H.nonempty) {t : Nat} {ts : List Nat}
+    (hts : reToks s₁ H d na.kids = some (t :: ts)) (halt : H.alts.contains (nb.tok, t :: ts) = true) :
+    Goal s₁ s₂ L n a b := by
+  intro c p hne
+  obtain ⟨k, ks', hkids, hk1, _⟩ := reToks_cons hts
+  have hpa := parse_choice (L := L) (n := n) (c := c) (p := p) ha hka hsa
+  have hlne : choiceLoop (fun e q => parse s₁.g L n e c q) na.kids p p ≠ .fuel := by
+    intro h; rw [hpa, h] at hne; simp [finish] at hne
+  cases n with
+  | zero => rw [hkids] at hlne; simp [choiceLoop, parse] at hlne
+  | succ n' =>
+    obtain ⟨nd, hg, hkind, hsupp, hsup, hnon, htok⟩ := reTok_some hk1
+    have hkne : parse s₁.g L (n'+1) k c p ≠ .fuel := by
+      intro hx; rw [hkids] at hlne; simp only [choiceLoop, hx] at hlne; exact hlne rfl
+    have hpd := peel_down hs₁ d (n'+1) k c p hkne
+    rw [parse_match hg hsupp (Or.inr (Or.inl hkind))] at hpd
+    rcases skip_cases s₁.g L (fun e q => parse s₁.g L n' e true q) n' c p with ⟨w, p', hsk⟩ | hsk | hsk
+    · have hcl := choice_toks_left hs₁ hsk na.kids (t :: ts) hts hlne
+      obtain ⟨m₀, hm₀⟩ := skip_tr hs₁ hs₂ hb hP (by omega : n' ≤ n'+1) c p (by rw [hsk]; simp)
+      rw [hsk] at hm₀
+      apply shift_ev (m₀ := m₀)
+      intro m hm
+      rw [parse_match hgb hsb (Or.inr (Or.inl hkb)), hm₀ m hm, hpa, hcl]
+      simp only
+      rw [re_lex hs₂.lex hkb hsupb hne', alt_res hs₁.lex halt, finish_tok hsupa]
+    · rw [hsk] at hpd; exact absurd hpd.symm hkne
+    · rw [hsk] at hpd
+      simp only at hpd
+      obtain ⟨m₀, hm₀⟩ := skip_tr hs₁ hs₂ hb hP (by omega : n' ≤ n'+1) c p (by rw [hsk]; simp)
+      rw [hsk] at hm₀
+      apply shift_ev (m₀ := m₀)
+      intro m hm
+      rw [parse_match hgb hsb (Or.inr (Or.inl hkb)), hm₀ m hm, hpa, hkids]
+      simp only [choiceLoop, ← hpd, finish]
+
+theorem case_re_choice (hs₁ : s₁.Ok H L) (hs₂ : s₂.Ok H L) (hb : Base s₁ s₂ d R) {n a b : Nat}
+    (hP : P s₁ s₂ L R n) {na nb : Node} (ha : s₁.g.get a = some na) (hgb : s₂.g.get b = some nb)
+    (hsa : supported na = true) (hsb : supported nb = true) (hsupa : na.suppress = false)
+    (hsupb : nb.suppress = false) (hka : na.kind = .re) (hkb : nb.kind = .choice)
+    (hne' : na.tok ∈ H.nonempty) {t : Nat} {ts : List Nat}
+    (hts : reToks s₂ H d nb.kids = some (t :: ts)) (halt : H.alts.contains (na.tok, t :: ts) = true) :
+    Goal s₁ s₂ L n a b := by
+  intro c p hne
+  obtain ⟨k, ks', hkids, hk1, _⟩ := reToks_cons hts
+  have hpa := parse_match (L := L) (n := n) (c := c) (p := p) ha hsa (Or.inr (Or.inl hka))
+  have hskne : skipGen s₁.g L (fun e q => parse s₁.g L n e true q) n c p ≠ .fuel := by
+    intro h; rw [hpa, h] at hne; exact hne rfl
+  obtain ⟨ms, hms⟩ := skip_tr hs₁ hs₂ hb hP (Nat.le_refl n) c p hskne
+  rcases skip_cases s₁.g L (fun e q => parse s₁.g L n e true q) n c p with ⟨w, p', hsk⟩ | hsk | hsk
+  · rw [hsk] at hms hpa
+    simp only at hpa
+    rw [re_lex hs₁.lex hka hsupa hne', alt_res hs₁.lex halt] at hpa
+    obtain ⟨m₁, hm₁⟩ := choice_toks_right hs₂ (c := c) (p := p) ⟨ms, hms⟩ nb.kids (t :: ts) hts
+    apply shift_ev (m₀ := m₁)
+    intro m hm
+    rw [parse_choice hgb hkb hsb, hm₁ m hm, hpa, finish_tok hsupb]
+  · exact absurd hsk hskne
+  · rw [hsk] at hms hpa
+    simp only at hpa
+    obtain ⟨nd, hg, hkind, hsupp, hsup, hnon, htok⟩ := reTok_some hk1
+    have hpk : parse s₂.g L (ms+1) (peel s₂ d k) c p = .bad := by
+      rw [parse_match hg hsupp (Or.inr (Or.inl hkind)), hms ms (Nat.le_refl _)]
+    obtain ⟨m₁, hm₁⟩ := peel_ev hs₂ hpk (by simp)
+    apply shift_ev (m₀ := m₁)
+    intro m hm
+    rw [parse_choice hgb hkb hsb, hkids, hpa]
+    simp only [choiceLoop, hm₁ m hm, finish]
+
 end cases
 
 end Rec
